@@ -1,5 +1,5 @@
 // C07 runtime tie: compile arbitrary text in a forked child under ASan/UBSan/LSan and check the error protocol.
-// line: <id> <S|B> <hex source> [I<name>=<hex content>]...        (S: yr_compiler_add_string, B: yr_compiler_add_bytes)
+// line: <id> <S|B> <hex source> [I<name>=<hex content>]... [U<hex unit>]...   (units: added to the same compiler after the source, while errors == 0)        (S: yr_compiler_add_string, B: yr_compiler_add_bytes, F: yr_compiler_add_file, D: yr_compiler_add_fd)
 // out:  <id> ok errs=<ret> cb=<error callbacks> warn=<warning callbacks> msgok=<all messages non-empty> lineok=<all lines >= 1>
 //            l0=<callbacks with line < 1> l0eof=<of those, "unexpected end of file"> l0msg=<first other message with line < 1>
 //            rules=<got rules 0|1> scan=<rc of scanning a small buffer|-> destroy=1 follow=<ok|BAD...> kind=<first message, 3 words>
@@ -12,12 +12,17 @@
 #include <time.h>
 #include <sys/wait.h>
 #include <fcntl.h>
+#include <sys/mman.h>
 
 extern int __lsan_do_recoverable_leak_check(void) __attribute__((weak));
+#ifdef VERIF_COV
+extern void __gcov_dump(void);   // coverage flavour (-DVERIF_COV --coverage): the child leaves through _exit, so flush the counters by hand
+#endif
 
 typedef struct { int errs, warns, msgok, lineok, l0, l0eof; char first[96]; char l0msg[96]; } CB;
 typedef struct { char* name; char* content; } INC;
 static INC incs[64]; static int nincs;
+static char* units[16]; static int nunits;   // further compilation units added to the SAME compiler while no error occurred
 
 static void ccb(int level, const char* file, int line, const YR_RULE* rule, const char* msg, void* ud)
 {
@@ -64,7 +69,24 @@ static void child(char mode, uint8_t* src, size_t len, int rfd)
   yr_compiler_define_integer_variable(comp, "ext_int", 5);
   yr_compiler_define_string_variable(comp, "ext_str", "hello");
   yr_compiler_define_boolean_variable(comp, "ext_bool", 1);
-  int errs = (mode == 'B') ? yr_compiler_add_bytes(comp, src, len, NULL) : yr_compiler_add_string(comp, (const char*) src, NULL);
+  int errs;
+  if (mode == 'F')        // yr_compiler_add_file on a stdio stream over the bytes
+  {
+    FILE* f = len ? fmemopen(src, len, "r") : fopen("/dev/null", "r");
+    errs = yr_compiler_add_file(comp, f, NULL, "mem.yar");
+    fclose(f);
+  }
+  else if (mode == 'D')   // yr_compiler_add_fd on an anonymous file holding the bytes
+  {
+    int fd = memfd_create("c07", 0);
+    if (fd < 0 || write(fd, src, len) != (ssize_t) len) _exit(31);
+    lseek(fd, 0, SEEK_SET);
+    errs = yr_compiler_add_fd(comp, fd, NULL, "fd.yar");
+    close(fd);
+  }
+  else errs = (mode == 'B') ? yr_compiler_add_bytes(comp, src, len, NULL) : yr_compiler_add_string(comp, (const char*) src, NULL);
+  for (int u = 0; u < nunits && errs == 0; u++)   // yr_compiler_add_* may only be called again while the error count is 0 (it asserts so)
+    errs = yr_compiler_add_string(comp, units[u], NULL);
   int lasterr = comp->last_error;   // error code behind the last callback
   int got = 0; char scan[48] = "-";
   if (errs == 0)
@@ -113,6 +135,9 @@ static void child(char mode, uint8_t* src, size_t len, int rfd)
   int l = snprintf(res, sizeof res, "errs=%d cb=%d warn=%d msgok=%d lasterr=%s lineok=%d l0=%d l0eof=%d rules=%d scan=%s destroy=1 follow=%s kind=%s l0msg=%.60s", errs, c.errs, c.warns, c.msgok,
                    errname(lasterr), c.lineok, c.l0, c.l0eof, got, scan, follow, k ? kind : "-", c.l0msg[0] ? c.l0msg : "-");
   if (write(rfd, res, l) != l) _exit(24);
+#ifdef VERIF_COV
+  __gcov_dump();
+#endif
   _exit(leaks ? 23 : 0);
 }
 
@@ -127,9 +152,10 @@ int main(int argc, char** argv)
     int n = split(line, t, 80);
     if (n < 3) continue;
     size_t len; uint8_t* src = unhex(t[2], &len);
-    nincs = 0;
+    nincs = 0; nunits = 0;
     for (int i = 3; i < n && nincs < 64; i++)
-      if (t[i][0] == 'I')
+      if (t[i][0] == 'U' && nunits < 16) { size_t l3; units[nunits++] = (char*) unhex(t[i] + 1, &l3); }
+      else if (t[i][0] == 'I')
       {
         char* eq = strchr(t[i], '=');
         if (!eq) continue;
@@ -146,8 +172,8 @@ int main(int argc, char** argv)
       dup2(ep[1], 2); close(ep[0]); close(ep[1]); close(rp[0]);
       int dn = open("/dev/null", O_WRONLY); dup2(dn, 1);
       // exact-size copy so that an over-read of the source is visible (add_string needs the terminator)
-      uint8_t* copy = (uint8_t*) malloc(len + (t[1][0] == 'B' ? 0 : 1) + (len == 0 && t[1][0] == 'B'));
-      memcpy(copy, src, len); if (t[1][0] != 'B') copy[len] = 0;
+      uint8_t* copy = (uint8_t*) malloc(len + (t[1][0] == 'S' ? 1 : 0) + (len == 0 && t[1][0] != 'S'));
+      memcpy(copy, src, len); if (t[1][0] == 'S') copy[len] = 0;
       child(t[1][0], copy, len, rp[1]);
     }
     close(ep[1]); close(rp[1]);
@@ -180,6 +206,7 @@ int main(int argc, char** argv)
     fflush(stdout);
     free(src);
     for (int i = 0; i < nincs; i++) free(incs[i].content);
+    for (int i = 0; i < nunits; i++) free(units[i]);
   }
   yr_finalize();
   free(line);
